@@ -308,6 +308,45 @@ fn unpredict(decoded: Vec<u8>, params: &LZWFlateParams) -> Result<Vec<u8>> {
     let bytes_per_pixel = (bits_per_pixel + 7) / 8;
     let stride = (columns * bits_per_pixel + 7) / 8;
 
+    if predictor == 2 {
+        // TIFF predictor 2: every sample is stored as the difference to the sample of the same
+        // colour component in the pixel to its left
+        let mut out = decoded;
+        if stride == 0 {
+            return Ok(out);
+        }
+        let samples = columns * n_components;
+        for row in out.chunks_exact_mut(stride) {
+            match bits_per_component {
+                8 => {
+                    for i in n_components .. samples {
+                        row[i] = row[i].wrapping_add(row[i - n_components]);
+                    }
+                }
+                16 => {
+                    for i in n_components .. samples {
+                        let left = u16::from_be_bytes([row[2 * (i - n_components)], row[2 * (i - n_components) + 1]]);
+                        let diff = u16::from_be_bytes([row[2 * i], row[2 * i + 1]]);
+                        row[2 * i .. 2 * i + 2].copy_from_slice(&left.wrapping_add(diff).to_be_bytes());
+                    }
+                }
+                bits @ (1 | 2 | 4) => {
+                    // samples are packed most significant bits first and never straddle a byte
+                    let mask = (1u8 << bits) - 1;
+                    let shift = |i: usize| 8 - bits - (i * bits) % 8;
+                    for i in n_components .. samples {
+                        let left = (row[(i - n_components) * bits / 8] >> shift(i - n_components)) & mask;
+                        let diff = (row[i * bits / 8] >> shift(i)) & mask;
+                        let value = left.wrapping_add(diff) & mask;
+                        row[i * bits / 8] = (row[i * bits / 8] & !(mask << shift(i))) | (value << shift(i));
+                    }
+                }
+                bits => bail!("unsupported BitsPerComponent {} for the TIFF predictor", bits)
+            }
+        }
+        return Ok(out);
+    }
+
     // unfilter (PNG)
     // For this, take the old out as input, and write output to out
 
